@@ -500,6 +500,86 @@ def bytes_member_workload(res, rng):
         ld.close()
 
 
+def mapping_api_workload(res, rng):
+    """everything a Python mapping offers, on a Dict with present and absent
+    keys (membership tests, get, setdefault, keys / items / values views and
+    containment in them, comparison, popitem, update from a dict, clear),
+    and hash-map variables of every format - the fixed-point one too - read
+    and written from Python"""
+    from ebpfcat.ebpf import Member, Structure
+    from ebpfcat.hashmap import Dict, HashMap
+    Key = type("Key", (Structure,), {"no": Member("I")})
+    Value = type("Value", (Structure,),
+                 {"count": Member("Q"), "stamp": Member("Q"),
+                  "state": Member(rng.choice("IHB"))})
+    with kern.session() as sess:
+        h = HashMap()
+        ns = {"license": "GPL", "d": Dict(key=Key, value=Value, size=16),
+              "h": h}
+        fmts = list("bBhHiIqQx")
+        for i, f in enumerate(fmts):
+            ns[f"hv{i}"] = h.globalVar(f, 0)
+
+        def dprogram(self):
+            self.r0 = 2
+            self.exit()
+        ns["program"] = dprogram
+        e = type("VfMapping", (XDP,), ns)()
+        ld = prog.Loaded(e, sess)
+
+        def key(n):
+            k = Key()
+            k.no = n
+            return k
+
+        def val(n):
+            v = Value()
+            v.count, v.stamp, v.state = n, n * 3, n & 0x7f
+            return v
+        with sysmon.Monitor(sess) as mon:
+            try:
+                ld.load()
+            except OSError:
+                res.count("mapping_api_load_failed")
+            else:
+                steps = [
+                    lambda: [e.d.__setitem__(key(n), val(n))
+                             for n in (1, 2, 3, 500)],
+                    lambda: [key(n) in e.d for n in (1, 2, 77, 500, 0)],
+                    lambda: [e.d.get(key(n)) for n in (1, 77)],
+                    lambda: e.d.setdefault(key(9), val(9)),
+                    lambda: e.d.setdefault(key(1), val(11)),
+                    lambda: [key(n) in e.d.keys() for n in (2, 78)],
+                    lambda: list(e.d.keys()),
+                    lambda: [v.count for v in e.d.values()],
+                    lambda: [(k.no, v.stamp) for k, v in e.d.items()],
+                    lambda: (key(3), val(3)) in e.d.items(),
+                    lambda: e.d == {},
+                    lambda: e.d.update({key(20): val(20)}),
+                    lambda: e.d.popitem(),
+                    lambda: e.d.pop(key(2)),
+                    lambda: e.d.pop(key(2), None),
+                    lambda: e.d.clear(),
+                    lambda: key(1) in e.d,
+                ]
+                for i, f in enumerate(fmts):
+                    v = 1.25 if f == "x" else 5
+                    steps.append(lambda i=i: getattr(e, f"hv{i}"))
+                    steps.append(lambda i=i, v=v: setattr(e, f"hv{i}", v))
+                    steps.append(lambda i=i: getattr(e, f"hv{i}"))
+                for st in steps:
+                    res.count("mapping_api_steps")
+                    try:
+                        st()
+                    except sysmon.Refused:
+                        pass
+                    except Exception:
+                        # (what the operation answers is C09's business)
+                        res.count("mapping_api_steps_that_raised")
+        absorb(mon, res, "mapping-api")
+        ld.close()
+
+
 def run_shard(params):
     res = Result()
     if params.get("valgrind"):
@@ -556,6 +636,7 @@ def run_shard(params):
     guarded(misuse_workload, "misuse")
     guarded(bytes_member_workload, "byte-string-members")
     guarded(format_lookup_workload, "format-lookup")
+    guarded(mapping_api_workload, "mapping-api")
     for _ in range(3):
         guarded(closed_program_workload, "closed-program")
         guarded(unsupported_use_workload, "unsupported-use")
